@@ -5,7 +5,9 @@ from __future__ import annotations
 import itertools
 import math
 
-from vf.combi import digits
+from types import SimpleNamespace
+
+from vf.combi import ORD_LABELS, digits, fresh, unlabel
 from vf.guard import call as gcall, too_many_hangs
 from vf.core import Job, new_result, viol
 from vf.guard import guarded
@@ -91,7 +93,16 @@ def und_edges(nodes, adj):
 # ------------------------------------------------------------------------------------ structural part
 
 
-def run_structural(r, universe_n, adj, declared, kcore_too=True):
+def labelled_call(fn, nodes, adj, *extra, **kw):
+    """the same call over orderable tuple labels, a fresh (equal, not identical) object at every use; the answer is
+    translated back to node numbers"""
+    lab = lambda x: fresh(ORD_LABELS[x])  # noqa: E731
+    inv = {ORD_LABELS[x]: x for x in range(len(adj))}
+    res = fn([lab(x) for x in nodes], lambda v: [lab(w) for w in adj[inv[v]]], *extra, **kw)
+    return SimpleNamespace(status=res.status, objective=res.objective, solution=unlabel(res.solution, inv))
+
+
+def run_structural(r, universe_n, adj, declared, kcore_too=True, labelled=False):
     from solvor.articulation import articulation_points, bridges
     from solvor.kcore import kcore, kcore_decomposition
 
@@ -99,6 +110,13 @@ def run_structural(r, universe_n, adj, declared, kcore_too=True):
     edges = und_edges(nodes, adj)
     nb = lambda v: adj[v]  # noqa: E731
     wit = {"adj": [list(a) for a in adj], "nodes": nodes}
+    if labelled:
+        wit["labelled"] = True
+
+    def call(fn, *extra):
+        if labelled:
+            return lambda: labelled_call(fn, nodes, adj, *extra)
+        return lambda: fn(list(nodes), nb, *extra)
     # removing a vertex: count components among the remaining vertices; v is a cut vertex iff that count exceeds
     # (components before) minus (1 if v was isolated else 0)
     base = n_components(nodes, edges)
@@ -150,10 +168,10 @@ def run_structural(r, universe_n, adj, declared, kcore_too=True):
             errs.append(("wrong_core_numbers", f"returned {dict(res.solution)}, iterated deletion gives {want_core}"))
         return errs, "max%d" % (max(want_core.values()) if want_core else 0)
 
-    rec("articulation_points", lambda: articulation_points(list(nodes), nb), j_ap)
-    rec("bridges", lambda: bridges(list(nodes), nb), j_br)
+    rec("articulation_points", call(articulation_points), j_ap)
+    rec("bridges", call(bridges), j_br)
     if kcore_too:
-        rec("kcore_decomposition", lambda: kcore_decomposition(list(nodes), nb), j_core)
+        rec("kcore_decomposition", call(kcore_decomposition), j_core)
         for k in range(0, len(nodes) + 1):
             want = {v for v, c in want_core.items() if c >= k}
 
@@ -163,7 +181,7 @@ def run_structural(r, universe_n, adj, declared, kcore_too=True):
                     errs.append(("wrong_kcore", f"kcore(k={k}) returned {sorted(res.solution)}, expected {sorted(want)}"))
                 return errs, "k"
 
-            rec("kcore", lambda k=k: kcore(list(nodes), nb, k), j_k)
+            rec("kcore", call(kcore, k), j_k)
     if not r["samples"]:
         r["samples"].append(wit)
 
@@ -190,6 +208,8 @@ def _simple_chunk(params, lo, hi):
                 adj[v].append(u)
         adj = [sorted(a, reverse=bool(desc)) for a in adj]
         run_structural(r, n, adj, perms[pi], kcore_too=(desc == 0))
+        if desc == 0 and pi == len(perms) - 1:
+            run_structural(r, n, adj, perms[pi], labelled=True)
         if len(r["violations"]) >= 40 or too_many_hangs():
             r["capped"] = True
             break
@@ -260,7 +280,7 @@ def _outside_chunk(params, lo, hi):
 # ------------------------------------------------------------------------------------------ pagerank
 
 
-def judge_pagerank(nodes, adj, damping, max_iter=100, tol=1e-6, edges_variant=False):
+def judge_pagerank(nodes, adj, damping, max_iter=100, tol=1e-6, edges_variant=False, labelled=False):
     from solvor.pagerank import pagerank, pagerank_edges
     from solvor.types import Status
 
@@ -269,6 +289,8 @@ def judge_pagerank(nodes, adj, damping, max_iter=100, tol=1e-6, edges_variant=Fa
         if edges_variant:
             el = [(u, v) for u in nodes for v in adj[u]]
             res = gcall(lambda: pagerank_edges(n, el, damping=damping, max_iter=max_iter, tol=tol, backend="python"))
+        elif labelled:
+            res = gcall(lambda: labelled_call(pagerank, nodes, adj, damping=damping, max_iter=max_iter, tol=tol))
         else:
             res = gcall(lambda: pagerank(list(nodes), lambda v: adj[v], damping=damping, max_iter=max_iter, tol=tol))
     except Exception as ex:  # noqa: BLE001
@@ -314,15 +336,15 @@ def _pr_chunk(params, lo, hi):
         for b, (u, v) in enumerate(slots):
             if code >> b & 1:
                 adj[u].append(v)
-        for ev in (False, True):
-            errs, label, nt = judge_pagerank(list(range(n)), adj, d, edges_variant=ev)
+        for ev in (False, True, "labelled") if idx % 3 == 2 else (False, True):
+            errs, label, nt = judge_pagerank(list(range(n)), adj, d, edges_variant=ev is True, labelled=ev == "labelled")
             r["n"] += 1
             r["outcomes"]["pagerank:" + label] += 1
             if nt:
                 r["nontrivial"] += 1
-            wit = {"n": n, "adj": adj, "damping": d, "edges_variant": ev}
+            wit = {"n": n, "adj": adj, "damping": d, "edges_variant": ev is True, "labelled": ev == "labelled"}
             for kind, detail in errs:
-                r["violations"].append(viol("pagerank", kind, wit, f"pagerank{'_edges' if ev else ''}(adj={adj}, damping={d}): {detail}"))
+                r["violations"].append(viol("pagerank", kind, wit, f"pagerank{'_edges' if ev is True else ''}(adj={adj}, damping={d}{', tuple labels' if ev == 'labelled' else ''}): {detail}"))
         if not r["samples"]:
             r["samples"].append({"function": "pagerank", "adj": adj, "damping": d})
         if len(r["violations"]) >= 40 or too_many_hangs():
@@ -359,11 +381,13 @@ def _pr_seq_chunk(params, lo, hi):
 # ------------------------------------------------------------------------------------------- louvain
 
 
-def judge_louvain(nodes, adj, resolution):
+def judge_louvain(nodes, adj, resolution, labelled=False):
     from solvor.community import louvain
 
     def run():
         try:
+            if labelled:
+                return labelled_call(louvain, nodes, adj, resolution=resolution), None
             return louvain(list(nodes), lambda v: adj[v], resolution=resolution), None
         except Exception as ex:  # noqa: BLE001
             return None, f"{type(ex).__name__}: {ex}"
@@ -419,16 +443,17 @@ def _louvain_chunk(params, lo, hi):
                 adj[u].append(v)
                 if code % 2 == 0:
                     adj[v].append(u)
-        errs, label, nt = judge_louvain(perms[pi], adj, res_)
+        lb = pi == len(perms) - 1 and idx % 3 == 1  # one order, default resolution: tuple labels instead of numbers
+        errs, label, nt = judge_louvain(perms[pi], adj, res_, labelled=lb)
         r["n"] += 1
         r["outcomes"]["louvain:" + label] += 1
         if label == "hang":
             r["counters"]["hangs"] += 1
         if nt:
             r["nontrivial"] += 1
-        wit = {"nodes": list(perms[pi]), "adj": adj, "resolution": res_}
+        wit = {"nodes": list(perms[pi]), "adj": adj, "resolution": res_, "labelled": lb}
         for kind, detail in errs:
-            r["violations"].append(viol("louvain", kind, wit, f"louvain(nodes={list(perms[pi])}, adj={adj}, resolution={res_}): {detail}"))
+            r["violations"].append(viol("louvain", kind, wit, f"louvain(nodes={list(perms[pi])}, adj={adj}, resolution={res_}{', tuple labels' if lb else ''}): {detail}"))
         if not r["samples"]:
             r["samples"].append(dict(wit, function="louvain"))
         if len(r["violations"]) >= 40 or r["counters"]["hangs"] >= 2:
@@ -463,11 +488,11 @@ def replay(v):
     f = v["function"]
     if f == "pagerank":
         nodes = w.get("nodes") or list(range(w["n"]))
-        errs, _, _ = judge_pagerank(nodes, w["adj"], w["damping"], max_iter=w.get("max_iter", 100), edges_variant=w.get("edges_variant", False))
+        errs, _, _ = judge_pagerank(nodes, w["adj"], w["damping"], max_iter=w.get("max_iter", 100), edges_variant=w.get("edges_variant", False), labelled=bool(w.get("labelled")))
     elif f == "louvain":
-        errs, _, _ = judge_louvain(w["nodes"], w["adj"], w["resolution"])
+        errs, _, _ = judge_louvain(w["nodes"], w["adj"], w["resolution"], labelled=bool(w.get("labelled")))
     else:
-        run_structural(r, len(w["adj"]), w["adj"], tuple(w["nodes"]))
+        run_structural(r, len(w["adj"]), w["adj"], tuple(w["nodes"]), labelled=bool(w.get("labelled")))
         for x in r["violations"]:
             if x["function"] == f:
                 return x
